@@ -25,6 +25,32 @@ class Ctx:
             self._G = CallGraph(self.A)
         return self._G
 
+    @property
+    def helpers(self):
+        """Package functions that are not anchors of any rule and are inlined into their callers:
+        their bodies are analysed in the callers' context, so closure scans skip them."""
+        if getattr(self, "_helpers", None) is None:
+            from .flow import ANCHORS, Evaluator
+            called = set()
+            for cs in self.G.sites:
+                for f in cs.funcs():
+                    if f is not cs.owner:
+                        called.add(f.qualname)
+            out = set()
+            for f in self.p.all_functions():
+                if f.name in ANCHORS or f.name.startswith("__") or f.qualname not in called:
+                    continue
+                if Evaluator(self.p, f).inlinable(f) is False and False:
+                    continue
+                ev = Evaluator(self.p, self.p.all_functions()[0] if self.p.all_functions()[0] is not f else self.p.all_functions()[1])
+                from .flow import _INLINE_STATS
+                st = _INLINE_STATS.get(id(self.p), {"ok": set(), "fail": set()})
+                # only functions ALL of whose call sites were actually inlined count as helpers
+                if ev.inlinable(f) and f.qualname in st["ok"] and f.qualname not in st["fail"]:
+                    out.add(f.qualname)
+            self._helpers = out
+        return self._helpers
+
 
 def registry():
     from . import checks_ip
